@@ -31,9 +31,10 @@ type personSpec struct {
 }
 
 type famSpec struct {
-	Husb, Wife int   `json:"husb"`
-	Kids       []int `json:"kids,omitempty"`
-	Marr       bool  `json:"marr,omitempty"`
+	Husb int   `json:"husb"`
+	Wife int   `json:"wife"`
+	Kids []int `json:"kids,omitempty"`
+	Marr bool  `json:"marr,omitempty"`
 }
 
 type privCase struct {
@@ -371,7 +372,7 @@ func genCase(rt *rapid.T) privCase {
 func TestCheckPrivacy(t *testing.T) {
 	s := harness.NewSub("living-people-marked-documents",
 		"family graphs (1..6 people, 0..3 families) in which every name part of every person is a unique marker (given, surname, an alternative NAME record, a further NAME with NICK) and places/notes are markers too; status by construction and far from the 100-year boundary: dead = DEAT with date, DEAT without date, or born about 1810 without DEAT; living = born 2001+ without DEAT, no dates at all, or born 2003 with BURI but no DEAT; living people in every role (spouse, parent, child, unconnected), optionally sharing a surname or a place with a dead person; visibility hide/placeholder x page-group masks x jobs 1/4. Oracle: IsLiving() agrees with the construction; no file name and no file content (case-insensitive) contains a name marker of a living person; every non-living person has a page, is listed, and the name shows; pages stay well formed; in hide mode the published files are byte-identical when only the living people's names, dates, places and notes are changed; non-trivial = a living and a dead person connected by a family")
-	s.Rapid(t, harness.Share(harness.Pick(4000, 150000)), 170, func(rt *rapid.T) {
+	s.Rapid(t, harness.Share(harness.Pick(30000, 600000)), 170, func(rt *rapid.T) {
 		c := genCase(rt)
 		s.Crumb(c)
 		fl, st := check(c)
